@@ -11,6 +11,7 @@ CONSTANTS
  Cancels = TRUE
  Failures = TRUE
  Timeouts = FALSE
+ Evictions = FALSE
 PROPERTY Termination
 INVARIANT Inv_C01
 INVARIANT Inv_C06
